@@ -93,6 +93,8 @@ fn canon_into(v: &Value, out: &mut Vec<String>) {
 pub enum VD {
     Undef,
     None,
+    /// an invalid value (carries an error)
+    Invalid,
     Bool(bool),
     /// integer; `true` = build through the unsigned representation where it fits
     Int(i128, bool),
@@ -115,6 +117,7 @@ impl VD {
         match self {
             VD::Undef => Value::UNDEFINED,
             VD::None => Value::from(()),
+            VD::Invalid => Value::from(minijinja::Error::new(minijinja::ErrorKind::InvalidOperation, "boom")),
             VD::Bool(b) => Value::from(*b),
             VD::Int(i, unsigned) => {
                 if *unsigned && *i >= 0 && *i <= u64::MAX as i128 {
@@ -161,6 +164,7 @@ impl VD {
         match self {
             VD::Undef => out.push("undef".into()),
             VD::None => out.push("none".into()),
+            VD::Invalid => out.push("X".into()),
             VD::Bool(b) => out.push(if *b { "T" } else { "F" }.into()),
             VD::Int(i, u) => out.push(format!("{}{}", if *u { "u" } else { "i" }, i)),
             VD::BigU(u) => out.push(format!("i{u}")),
@@ -210,6 +214,9 @@ pub fn parse_vd(t: &mut Toks) -> Result<VD, String> {
     }
     if tok == "none" {
         return Ok(VD::None);
+    }
+    if tok == "X" {
+        return Ok(VD::Invalid);
     }
     let (h, rest) = tok.split_at(1);
     let utf8 = |r: &str| String::from_utf8(mjh::unhex(r)).map_err(|_| "bad utf8".to_string());
@@ -271,7 +278,7 @@ pub fn parse_vd(t: &mut Toks) -> Result<VD, String> {
 pub fn json_image(v: &VD) -> Result<serde_json::Value, &'static str> {
     use serde_json::Value as J;
     Ok(match v {
-        VD::Undef | VD::None => J::Null,
+        VD::Undef | VD::None | VD::Invalid => J::Null,
         VD::Bool(b) => J::Bool(*b),
         VD::Int(i, _) => {
             if let Ok(x) = i64::try_from(*i) {
